@@ -797,6 +797,11 @@ def _meta_index(ip, items, i):
             res = ite(ip, z3.Or(iv == k, iv == k - n), items[k], res)
         return res
     if n > 64:
+        u = st.unique_value(iv, force=True)      # a dispatch table indexed by a value the path pins (hybrid case enumeration)
+        if u is not None:
+            if -n <= u < n:
+                return items[u]
+            ip.raise_(IndexError, "index out of range")
         raise Unsupported("symbolic index into long meta list")
     for k in range(n):
         if st.branch(z3.Or(iv == k, iv == k - n), "index == %d" % k):
